@@ -10,9 +10,9 @@ OP_OWNER = {
     "apply": ["C06"], "fapply": ["C06"], "rownums": ["C06"],
     "eval": ["C07"],
     "new": ["C08"], "select": ["C08"], "drop": ["C08"], "slice": ["C08"], "copy": ["C08"],
-    "equals": ["C09"], "rebuild": ["C09"],
+    "equals": ["C09"], "rebuild": ["C09"], "congruence": ["C09"],
     "tocsv": ["C09", "C13"], "csvroundtrip": ["C13"],
-    "tojson": ["C09", "C14"], "jsonroundtrip": ["C14"],
+    "tojson": ["C09", "C14"], "jsonroundtrip": ["C14"], "string": ["C09"],
     "wfault": ["C15"],
     "wf": ["C10"], "callbacks": ["C10"],
     "sortadv": ["C03"], "conc": ["C11"], "grpadv": ["C04", "C05"],
@@ -23,7 +23,7 @@ OP_OWNER = {
     "csvfault": ["C15"], "csvreadfault": ["C15"],
 }
 
-BASE = "filter+sort+slice+select+drop+copy+apply+fapply+rownums+eval+distinct+groupagg+groupframes+equals+rebuild+tocsv+tojson+tosql"
+BASE = "filter+sort+slice+select+drop+copy+apply+fapply+rownums+eval+distinct+groupagg+groupframes+equals+rebuild+tocsv+tojson+tosql+string"
 
 
 def mix(*ops, w=3):
@@ -41,16 +41,16 @@ PROPS = {
             "sections": [dict(hist("hist", ["apply", "copy", "rownums", "eval", "sort"], quick=250), cover_ops=None)],
             "rule": "every step of every generated history re-observes all earlier family members (digest of the full observation); "
                     "evaluations = observations compared; non-trivial = successful operation on a result with >= 2 rows; distinct by (operation, result)"},
-    "C02": {"lean": ["QF.Props.C02"],
+    "C02": {"lean": ["QF.Props.C02", "QF.Props.C02Spec"], "extra_ns": ["QF.Props.C02Spec"],
             "sections": [hist("hist", ["filter"]),
                          {"section": "hist", "tag": "hist-filter", "opt": "ops=filter+filter+filter+filter+sort+slice+distinct", "quick": 400, "thorough": 4000, "cover_ops": {"filter"}}]},
     "C03": {"lean": ["QF.Props.C03", "QF.Props.C03Spec"],
             "sections": [hist("hist", ["sort"]),
                          {"section": "sortadv", "quick": 300, "thorough": 3000, "cover_ops": {"SA"}}]},
-    "C04": {"lean": ["QF.Props.C04"],
+    "C04": {"lean": ["QF.Props.C04", "QF.Props.C04Spec"], "extra_ns": ["QF.Props.C04Spec"],
             "sections": [hist("hist", ["groupagg", "groupframes"]),
                          {"section": "grpadv", "quick": 600, "thorough": 6000, "cover_ops": {"GA"}}]},
-    "C05": {"lean": ["QF.Props.C05", "QF.Props.C05Distinct", "QF.Props.C04"], "extra_ns": ["QF.Props.C04"], "sections": [hist("hist", ["distinct"])]},
+    "C05": {"lean": ["QF.Props.C05", "QF.Props.C05Distinct", "QF.Props.C04", "QF.Props.C04Spec"], "extra_ns": ["QF.Props.C04", "QF.Props.C04Spec"], "sections": [hist("hist", ["distinct"])]},
     "C06": {"lean": ["QF.Props.C06", "QF.Props.C06Apply"],
             "sections": [{"section": "hist", "tag": "hist-wit", "opt": "wit=1", "quick": 1, "thorough": 1, "cover_ops": {"fapply"}},
                          hist("hist", ["apply", "fapply", "rownums"])]},
@@ -59,7 +59,7 @@ PROPS = {
             "sections": [hist("hist", ["select", "drop", "slice", "copy"], cover=["new", "select", "drop", "slice", "copy"]),
                          {"section": "hist", "tag": "hist-new", "opt": "newonly=1", "quick": 150, "thorough": 1500, "cover_ops": {"new"}}]},
     "C09": {"lean": ["QF.Props.C09", "QF.Props.C09Equals", "QF.Props.C06"], "extra_ns": ["QF.Props.C06"],
-            "sections": [dict(hist("hist", ["equals", "rebuild", "rebuild", "sort", "sort", "filter", "slice"], quick=250), cover_ops=None)]},
+            "sections": [dict(hist("hist", ["equals", "rebuild", "rebuild", "sort", "sort", "filter", "slice", "string", "tocsv", "tojson"], quick=250), cover_ops=None)]},
     "C11": {"lean": ["QF.Props.C11"],
             "sections": [{"section": "conc", "race": True, "quick": 150, "thorough": 2000, "cover_ops": {"CC"}}],
             "rule": "cases = batches of 6..12 operations (Filter incl. like/ilike, Sort, Distinct, GroupBy/Aggregate, Apply, FilteredApply, Eval with one shared context, Select/Slice/Copy, ToCSV/ToJSON/String, Equals) "
